@@ -890,6 +890,7 @@ func (e *Exec) exec1(op string, pos []string, kv map[string]string, line string)
 		points := 0
 		for k := 0; k < 48; k++ {
 			if err := w.Main.Reopen(); err != nil {
+				e.violate("reopen-failed", "reopen failed: "+err.Error(), "")
 				return "error:" + err.Error()
 			}
 			reached, common, desc := selRaceAt(w.Main.S, addr, need, k, kv["x"] == "1")
